@@ -339,7 +339,7 @@ func gen(r *Rng, tier string, emit Emit) {
 	maxCorpus := 2048
 	modelMax := 6000
 	if tier == "thorough" {
-		n = 1500
+		n = 300 // 1500 gave 2.7 million cases, a 12 GB case file and a 90 minute run
 		maxCorpus = 1 << 20
 	}
 	repo := os.Getenv("VERIF_REPO_PATH")
